@@ -226,10 +226,16 @@ def evaluate(ctx, cases, label, kmax=9, n_random=6, big_F=200, forced=None):
     for c, arr, lat, key in jobs:
         line, S = ser_lattice_arrays(*arr)
         keys = dist_keys(lat)
-        KS = common_scale(np.array(keys + [1.0]))
         ep = lat.edges.adjacent_plaquettes
         two = [e for e in range(lat.n_edges) if INVALID not in ep[e]]
         tie = len({keys[e] for e in two}) != len(two)
+        if not all(math.isfinite(x) for x in keys):
+            # a plaquette centre is nan/inf (zero-area plaquette): the coded distance order is not
+            # representable exactly; only the informational "same order as coded" comparison is dropped
+            res.skip("coded-order-comparison-skipped-non-finite-centre")
+            keys = [0.0 for _ in keys]
+            tie = True
+        KS = common_scale(np.array(keys + [1.0]))
         trees = {}
         for sso in (False, True):
             try:
